@@ -24,7 +24,7 @@ T = {
    "Up to 6 reloaded copies are driven with the original and compared through complete observable snapshots after every operation; markets are reloaded and continued against never-serialised stand-alone books; every byte offset of written book and market snapshots (pretty and compact, all level counts) must be rejected, in a child process so that an abort is attributable.",
    "Compares observables, not JSON text. Truncation of files larger than those generated (tens of KiB) is not explored."),
  "C08": ("exploration", "shadow-replay monitor with schedule inference: some permutation of the batch replayed on a plain real order book must reproduce the environment",
-   "Per step: clock = start + step size, queue empty (hook H1), per-step traded volume = sum of the step's trades, and existence of a consistent schedule (rand's permutation as a hint first, then a pruned search over the instructions without visible timestamps); 10 environment types, trading on/off.",
+   "Per step: clock = start + step size, queue empty (hook H1), per-step traded volume = sum of the step's trades, and existence of a consistent schedule (rand's permutation as a hint first, then a pruned search over the instructions without visible timestamps); 14 environment types, trading on/off.",
    "The search forks the shadow through JSON (C07 as an assumption of the search only). A different unbiased shuffle algorithm would be accepted."),
  "C09": ("exploration", "differential monitor over complete runs: same process twice, child OS processes with perturbed environment, progress-bar branch, neighbouring seed",
    "128-bit digests of orders, trades, all recorded series and clocks of 8 agent compositions through both derive macros and both runners.",
@@ -81,6 +81,23 @@ EXTRA = {
  "C19": " Later additions: every array / dictionary series / history getter is judged against the documented quantities recomputed from get_orders()/get_trades() of the same Python object, laid out as the live docstring tables say (rows mapped to quantities, any table style); traded volume from the trade log; quiet steps, reads before the first step and between submission and step, books at the bottom of the price range.",
  "C20": " Now 64 shapes per derive: generic probes over PhantomData/Option/Vec/arrays/fn pointers/references/unit, boxed probes, aliases, parenthesised / type-macro / qualified-path field types, structs declared through macro_rules, doc comments and attributes mentioning words a derive might look for.",
 }
+R7 = {
+ "C03": " Later additions: the same audit per asset through Market<1..4, 12, 66 assets> (trade log prefix, record fields, get_trade_vols = sum since the last reset) with market-wide counter resets and resets of a single asset's book.",
+ "C05": " Later additions: wide (12 / 66 assets) and level-less (LEVELS = 0) environments in a share of the over-full sessions.",
+ "C07": " Later additions: markets with 12 and 66 assets (one market session in 37).",
+ "C08": " Later additions: wide (12 / 66 assets) and level-less (LEVELS = 0) environments; a resume regime (start halted, crossed book, resume, exact-fill instructions); the environment's own per-step traded-volume series is read next to the book's counter.",
+ "C09": " Later additions: chained simulations - other-seed runs of two and three steps that end exactly at, or one step before, the clock value at which the repeated run starts.",
+ "C10": " Later additions: wide (12 / 66 assets) and level-less environments; resume regime (one session in twenty starts halted, rests crossing orders, resumes, then one or two instructions per step sized to fill exactly).",
+ "C11": " Later additions: wide (12 / 66 assets) and level-less environments; resume regime.",
+ "C12": " Later additions: wide markets and environments.",
+ "C13": " Later additions: wide markets and environments; resume regime in the environment part.",
+ "C14": " Later additions: markets and environments with 12 and 66 assets (more assets than levels, asset indexes beyond 10 and 64).",
+ "C18": " Later additions: the executor overwrites a third of all returned lists / dicts / arrays in place (later calls must not depend on what the caller did with an earlier result).",
+ "C19": " Later additions: arrays requested again within a step while the executor overwrites a third of the values it was handed back; one script in sixteen with step size 0, 1 or 2.",
+ "C20": " Later additions: same-named derived sets in different modules nested through qualified paths; built-in members with silent / empty / saturated parameters.",
+}
+for k, v in R7.items():
+    EXTRA[k] = EXTRA.get(k, "") + v
 for k, v in EXTRA.items():
     c, tech, text, note = T[k]
     T[k] = (c, tech, text + v, note)
@@ -102,7 +119,7 @@ m = {
            "baseline_off_cmd": "cd /repo && cargo test --workspace --no-fail-fast --offline", "source_commits": hook_commits, "add_only": True},
  "engines": [{"name": "bvmon", "path": "/verif/harness", "serves_properties": sorted(T), "kind_free_text": "Rust harness: generators, reference engine, runtime monitors over real executions, one sub-command per property; Python executor pyharness/run_scripts.py for C18/C19"}],
  "checks": checks,
- "notes": "Runtime monitoring only: every check executes the real code and an oracle observes the executions. Exit 0 held on everything explored, 1 violation (VIOLATION property=<id> replay=<path>), 2 inconclusive. VERIF_SEED seeds every random choice. known_findings.json lists the genuine defects found (all repaired by fix: commits; none open). Supplementary screens that are not registered checks: `./check extra miri` (workload slices under the Miri interpreter) and `./check extra valgrind` (C18/C19 scripts under memcheck); seeded/ holds 160 independently written property-breaking changes and 33 property-preserving ones with what was run against them.",
+ "notes": "Runtime monitoring only: every check executes the real code and an oracle observes the executions. Exit 0 held on everything explored, 1 violation (VIOLATION property=<id> replay=<path>), 2 inconclusive. VERIF_SEED seeds every random choice. known_findings.json lists the genuine defects found (all repaired by fix: commits; none open). Supplementary screens that are not registered checks: `./check extra miri` (workload slices under the Miri interpreter), `./check extra valgrind` (C18/C19 scripts under memcheck) and `./check extra coverage` (line coverage of the repository's crates by the quick workloads, instrumented harness); seeded/ holds 240 independently written property-breaking changes and 33 property-preserving ones with what was run against them.",
  "not_applicable": [],
 }
 json.dump(m, open("/verif/MANIFEST.json", "w"), indent=1)
